@@ -240,6 +240,18 @@ func overlong(r *vh.Runner, c *vh.Case, cd *codec, v any) {
 	}
 	if err != nil || b == nil {
 		r.Count("overlong_refused:"+cd.name, 1)
+		// a refused value leaves nothing behind: the next representable value
+		// encodes exactly as it does at any other time
+		if cd.gen != nil {
+			next := cd.gen(vh.NewRand(uint64(len(cd.name)), "c18-after-refusal", cd.render(v)))
+			b1, e1, p1 := cd.encode(next)
+			b2, e2, p2 := cd.encode(next)
+			if p1 == "" && p2 == "" && e1 == nil && e2 == nil && !bytes.Equal(b1, b2) {
+				c.Violate("C18:"+cd.name+":encoding-differs-after-a-refused-value", map[string]any{"refused": cd.render(v), "next": cd.render(next),
+					"first": vh.HexCap(b1, 48), "again": vh.HexCap(b2, 48), "len_first": len(b1), "len_again": len(b2)})
+			}
+			r.Count("encodes_after_refusal:"+cd.name, 1)
+		}
 		return
 	}
 	v2, rest, err, pan := cd.decode(append(append([]byte{}, b...), sentinel...))
